@@ -116,7 +116,10 @@ Definition auction_block (c : cfgstate) (v : N) : result :=
 
 Local Open Scope nat_scope.
 
-Inductive op := OSkip | ORLock | ORUnlock | OLock | OUnlock.
+(* OBlock: a step that may have to wait for something else than this mutex (the acquisition of
+   another mutex of the service).  For the lock under study it is a skip; [wf_prog] forbids it while
+   the lock is held, so that the holders of the lock never wait for anything foreign. *)
+Inductive op := OSkip | OBlock | ORLock | ORUnlock | OLock | OUnlock.
 
 Record pnode := { p_op : op; p_succ : list nat }.
 Definition prog := list pnode.
@@ -166,7 +169,7 @@ Definition cstep (g : prog) (s : sys) (a : nat * nat) : option sys :=
           | None => None
           | Some nd =>
               match p_op nd with
-              | OSkip =>
+              | OSkip | OBlock =>
                   match next_pc nd c with
                   | Some pc' => Some (set_thread s i {| t_pc := pc'; t_r := t_r t; t_w := t_w t |} L)
                   | None => None
@@ -236,6 +239,7 @@ Definition ohold_eqb := option_eqb hold_eqb.
 Definition transfer1 (o : op) (h : hold) : option hold :=
   match o, h with
   | OSkip, _ => Some h
+  | OBlock, H0 => Some H0          (* nothing foreign is waited for while holding *)
   | ORLock, H0 => Some HR
   | OLock, H0 => Some HW
   | ORUnlock, HR => Some H0
@@ -347,15 +351,19 @@ Definition rank_infer (g : prog) : list nat := rank_iter (length g) g (repeat 0%
 (* ============================================================================================ *)
 (* Part 3: projection of a translator graph onto one mutex                                       *)
 
-Definition op_of (mu : mutex) (i : instr) : op :=
+(* [strict]: the acquisition of another mutex is a foreign wait (OBlock); otherwise it is a skip *)
+Definition op_of (strict : bool) (mu : mutex) (i : instr) : op :=
   match i with
-  | ILock m x => if (m =? mu)%N then (if x then OLock else ORLock) else OSkip
+  | ILock m x => if (m =? mu)%N then (if x then OLock else ORLock) else if strict then OBlock else OSkip
   | IUnlock m x => if (m =? mu)%N then (if x then OUnlock else ORUnlock) else OSkip
   | _ => OSkip
   end.
 
-Definition project (mu : mutex) (g : graph) : prog :=
-  map (fun nd => {| p_op := op_of mu (n_instr nd); p_succ := n_succ nd |}) g.
+Definition project_gen (strict : bool) (mu : mutex) (g : graph) : prog :=
+  map (fun nd => {| p_op := op_of strict mu (n_instr nd); p_succ := n_succ nd |}) g.
+Definition project := project_gen false.
+(* the projection for a LEAF mutex: no other mutex may be acquired inside its critical sections *)
+Definition project_leaf := project_gen true.
 
 Definition mutexes_of (g : graph) : list mutex :=
   nodup N.eq_dec (flat_map (fun nd => match n_instr nd with ILock m _ => [m] | IUnlock m _ => [m] | _ => [] end) g).
@@ -363,6 +371,9 @@ Definition mutexes_of (g : graph) : list mutex :=
 (* every mutex of the service, taken alone, is used in a well-formed way *)
 Definition wf_graph (g : graph) (entries : list nat) : bool :=
   forallb (fun mu => wf_prog (project mu g) entries) (mutexes_of g).
+(* the mutexes inside whose critical sections no other mutex is acquired *)
+Definition leaf_mutexes (g : graph) (entries : list nat) : list mutex :=
+  filter (fun mu => wf_prog (project_leaf mu g) entries) (mutexes_of g).
 
 (* ============================================================================================ *)
 (* Part 4: hand transcription and scenario interpreter                                           *)
@@ -560,7 +571,7 @@ End Scenario.
    Kleene iteration over the graph (sets stay small: there are few distinct lock traces). *)
 Definition op_eqb (a b : op) : bool :=
   match a, b with
-  | OSkip, OSkip | ORLock, ORLock | ORUnlock, ORUnlock | OLock, OLock | OUnlock, OUnlock => true
+  | OSkip, OSkip | OBlock, OBlock | ORLock, ORLock | ORUnlock, ORUnlock | OLock, OLock | OUnlock, OUnlock => true
   | _, _ => false
   end.
 Definition tr_eqb := list_eqb op_eqb.
@@ -573,7 +584,7 @@ Fixpoint dedup_tr (l : list (list op)) : list (list op) :=
    a cut trace is longer than every trace of the hand programs, so it never matches one *)
 Definition trace_cap : nat := 6.
 Definition tr_step (g : prog) (T : list (list (list op))) : list (list (list op)) :=
-  map (fun nd => let pre := match p_op nd with OSkip => [] | o => [o] end in
+  map (fun nd => let pre := match p_op nd with OSkip | OBlock => [] | o => [o] end in
                  match p_succ nd with
                  | [] => [pre]
                  | succs => dedup_tr (map (fun t => firstn trace_cap (pre ++ t)) (flat_map (fun s => nth s T []) succs))
@@ -584,13 +595,14 @@ Definition lock_traces (g : prog) : list (list (list op)) := tr_iter (length g) 
 Definition subset_tr (a b : list (list op)) : bool := forallb (fun x => memb tr_eqb x b) a.
 Definition same_tr (a b : list (list op)) : bool := subset_tr a b && subset_tr b a.
 
-(* some mutex of the service is used exactly as the hand transcription says executionConfigMu is:
+(* some LEAF mutex of the service is used exactly as the hand transcription says executionConfigMu is:
    an entry whose traces are those of the refresh ({return early, RLock RUnlock Lock Unlock}), and
    every trace of every hand program is a trace of some entry of the service *)
 Definition hand_matches_source (g : graph) (entries : list nat) : bool :=
   let TH := lock_traces hand_prog in
   existsb (fun mu =>
-             let T := lock_traces (project mu g) in
+             let T := lock_traces (project_leaf mu g) in
+             wf_prog (project_leaf mu g) entries &&
              existsb (fun e => same_tr (nth e T []) [[]; [ORLock; ORUnlock; OLock; OUnlock]]) entries &&
              forallb (fun he => negb (match nth he TH [] with [] => true | _ => false end) &&
                                 existsb (fun e => subset_tr (nth he TH []) (nth e T [])) entries) hand_entries)
